@@ -12,7 +12,8 @@ let popt = function None -> "nan" | Some x -> pf x
 let () =
   iter_lines stdin (fun line ->
     match split_ws line with
-    | (("avg" | "var") as kind) :: prec :: w :: ops ->
+    | (("avg" | "var" | "avg2" | "var2") as kind0) :: prec :: w :: ops ->
+      let kind = String.sub kind0 0 3 in
       let n = f64 in
       let mult = o_multiplier n (rf prec) in
       let s = ref (o_init (nat_of_int (int_of_string w))) in
